@@ -309,6 +309,30 @@ impl<const P: u8, const G: i8> Dut for AsyncDut<P, G> {
 // nb front-end
 // ---------------------------------------------------------------------------------------------
 
+fn describe_nb<R: nb_device::radio::PhyRxTx>(r: &Result<nb_device::Response, nb_device::Error<R>>) -> (String, RespCode) {
+    use nb_device::Response as R_;
+    match r {
+        Ok(x) => {
+            let code = match x {
+                R_::NoUpdate => RespCode::NoUpdate,
+                R_::TimeoutRequest(t) => RespCode::TimeoutRequest(*t),
+                R_::JoinRequestSending | R_::UplinkSending(_) => RespCode::UplinkSending,
+                R_::JoinSuccess => RespCode::JoinSuccess,
+                R_::NoJoinAccept => RespCode::NoJoinAccept,
+                R_::DownlinkReceived(n) => RespCode::Downlink(*n),
+                R_::NoAck => RespCode::NoAck,
+                R_::ReadyToSend => RespCode::ReadyToSend,
+                R_::SessionExpired => RespCode::SessionExpired,
+                R_::RxComplete => RespCode::RxComplete,
+            };
+            (format!("{x:?}"), code)
+        }
+        Err(nb_device::Error::Radio(_)) => ("Err(Radio)".to_string(), RespCode::ErrRadio),
+        Err(nb_device::Error::State(s)) => (format!("Err(State({s:?}))"), RespCode::ErrState),
+        Err(nb_device::Error::Mac(m)) => (format!("Err(Mac({m:?}))"), RespCode::ErrMac),
+    }
+}
+
 type NDev<const P: u8, const G: i8> = nb_device::Device<SimRadio<P, G>, SimRng, 256, 8>;
 
 pub struct NbDut<const P: u8, const G: i8> {
@@ -347,14 +371,9 @@ impl<const P: u8, const G: i8> NbDut<P, G> {
         let env = self.env.clone();
         let dev = &mut self.dev;
         let r = guarded(&env, || dev.handle_event(ev))?;
-        let resp = match &r {
-            Ok(x) => format!("{x:?}"),
-            Err(nb_device::Error::Radio(_)) => "Err(Radio)".to_string(),
-            Err(nb_device::Error::State(s)) => format!("Err(State({s:?}))"),
-            Err(nb_device::Error::Mac(m)) => format!("Err(Mac({m:?}))"),
-        };
+        let (resp, code) = describe_nb(&r);
         let now = env.borrow().now_ms;
-        env.borrow_mut().push(Ev::NbEvent { ev: name.to_string(), resp, now });
+        env.borrow_mut().push(Ev::NbEvent { ev: name.to_string(), resp, now, code });
         Ok(r)
     }
 
@@ -481,7 +500,8 @@ impl<const P: u8, const G: i8> Dut for NbDut<P, G> {
             Err(e) => return e,
         };
         let now = env.borrow().now_ms;
-        env.borrow_mut().push(Ev::NbEvent { ev: "Join".into(), resp: format!("{:?}", first.as_ref().map_err(|_| "Err")), now });
+        let (resp, code) = describe_nb(&first);
+        env.borrow_mut().push(Ev::NbEvent { ev: "Join".into(), resp, now, code });
         self.drive(first)
     }
     fn send(&mut self, data: &[u8], port: u8, confirmed: bool) -> OpResult {
@@ -492,7 +512,8 @@ impl<const P: u8, const G: i8> Dut for NbDut<P, G> {
             Err(e) => return e,
         };
         let now = env.borrow().now_ms;
-        env.borrow_mut().push(Ev::NbEvent { ev: "SendDataRequest".into(), resp: format!("{:?}", first.as_ref().map_err(|_| "Err")), now });
+        let (resp, code) = describe_nb(&first);
+        env.borrow_mut().push(Ev::NbEvent { ev: "SendDataRequest".into(), resp, now, code });
         self.drive(first)
     }
     fn listen(&mut self) -> OpResult {
